@@ -383,6 +383,12 @@ def run_reject(case, ctx):
         if tname == 'Conv2d':
             s = mk_spec('diana_latency', tname, 'dw', 8, 8, 3, 4, wb=2, ab=8)
             expect_reject(ctx, 'diana:analog-depthwise', fn, s)
+            # grouped but not depthwise layers (two groups; a depthwise layer with a channel
+            # multiplier) are no more supported by the analog accelerator than depthwise ones
+            for cin, cout, g in ((8, 16, 2), (8, 8, 2), (8, 16, 8), (4, 12, 4)):
+                s = mk_spec('diana_latency', tname, 'gen', cin, cout, 3, 4, wb=2, ab=8)
+                s['groups'] = g
+                expect_reject(ctx, f'diana:analog-grouped-g{g}-{cin}to{cout}', fn, s)
     ctx.nontriv(('reject', 'mpic'))
     ctx.nontriv(('reject', 'ne16'))
     ctx.nontriv(('reject', 'diana'))
